@@ -81,9 +81,7 @@ def parseInit (q : Quoting) (o c : Char) (text : Str) : Option TokTree :=
 def floatChar (c : Char) : Bool :=
   (48 ≤ c.toNat ∧ c.toNat ≤ 57) ∨ c = '.' ∨ c = 'e' ∨ c = '+' ∨ c = '-'
 
-/-- the characters of a literal after its opening quote, up to and including the closing quote:
-    the string the compiler stores.  Escapes other than the ones the exporters write (`\\n`, …) are
-    not covered (`none`). -/
+/-- decoder state: plain, directly after a backslash, directly after a (closing or doubled) quote -/
 inductive UMode | normal | afterBackslash | afterQuote
   deriving DecidableEq, Repr
 
@@ -98,6 +96,9 @@ def unescGo (q : Quoting) : UMode → Str → Option Str
   | .afterBackslash, [] => none
   | .afterBackslash, d :: r => if d = '"' ∨ d = '\\' then (unescGo q .normal r).map (d :: ·) else none
 
+/-- the characters of a literal after its opening quote, up to and including the closing quote:
+    the string the compiler stores.  Escapes other than the ones the exporters write (`\\n`, …) are
+    not covered (`none`). -/
 def unescBody (q : Quoting) (s : Str) : Option Str := unescGo q .normal s
 
 /-- the value of a string-literal token -/
@@ -210,16 +211,20 @@ def readConstLine (backend : Str) (l : Str) : Option Sym := do
 
 def macroDecl : Str := cs!"macro"
 
-/-- `#define NAME value` : the token after the name, classified by its form -/
+/-- the token after a macro name, classified by its form -/
+def defineTok (tok : Str) : Option Scalar :=
+  match tok with
+  | '"' :: _ => (unquote .backslash tok).map Scalar.s
+  | _ => match readInt tok with
+    | some i => some (Scalar.i i)
+    | none => if tok ≠ [] ∧ tok.all floatChar then some (Scalar.f tok) else none
+
+/-- `#define NAME value` -/
 def readDefineLine (l : Str) : Option Sym := do
   let r ← dropPrefix? (cs!"#define ") l
   let (name, r) := r.span (fun c => c ≠ ' ')
   let tok ← dropPrefix? [' '] r
-  let v ← match tok with
-    | '"' :: _ => (unquote .backslash tok).map Scalar.s
-    | _ => match readInt tok with
-      | some i => some (Scalar.i i)
-      | none => if tok ≠ [] ∧ tok.all floatChar then some (Scalar.f tok) else none
+  let v ← defineTok tok
   some ⟨name, macroDecl, [], false, .leaf v⟩
 
 def isDeclLine (l : Str) : Bool :=
@@ -582,6 +587,14 @@ def expectedSym (backend : Str) (ren : Bool) (isMacro : Bool) (p : Param) : Opti
   let sh ← shapeOf p.value
   let decl ← if isMacro then some macroDecl else expectedDecl backend p
   some ⟨rename ren p.name, decl, sh, false, p.value⟩
+
+/-- what a parameter in the `define` list is expected to hold: booleans are written 1 / 0 -/
+def macroParam (define : List Str) (p : Param) : Param :=
+  if define.contains p.name then
+    match p.value with
+    | .leaf (.b v) => { p with value := .leaf (.i (if v then 1 else 0)) }
+    | _ => p
+  else p
 
 def expected (backend : Str) (ren : Bool) (define : List Str) (data : List Param) : Option (List Sym) :=
   data.mapM (fun p => expectedSym backend ren (define.contains p.name) p)
